@@ -138,7 +138,8 @@ pub fn for_property(prop: &str) -> Vec<Family> {
             sw("pipe-in-wake-drop-sweep", "the last owner of the target released at every scheduling point of the thread that notifies the input (where the pipe briefly upgrades its weak reference), with every pool thread stalled", gen_pipe_in_wake_drop_sweep, Q / 8, T / 8, 64),
         ],
         "C12" => vec![
-            f("pipe-out", "pipe with depth 1..5, consumer reading by blocking and by single polls (and changing the depth in mid-stream), producer pushing and closing", gen_pipe_out, Q * 3 / 4, T * 3 / 4),
+            f("pipe-out", "pipe with depth 1..5, consumer reading by blocking and by single polls (and changing the depth in mid-stream), producer pushing and closing", gen_pipe_out, Q * 5 / 8, T * 5 / 8),
+            sw("pipe-read-sweep", "a read by the consumer (the back-pressure release) injected at every scheduling point of the context polling the input, items arriving one at a time so that the producer is throttled again and again", gen_pipe_read_sweep, Q / 8, T / 8, 64),
             f("pipe-chain-out", "two pipes chained and run to the end (pipe into pipe, pipe into pipe_in): the consumer of the first stage is another pipe, itself throttled now and then", gen_pipe_chain_out, Q / 4, T / 4),
         ],
         "C14" => vec![
@@ -192,7 +193,7 @@ pub fn required_probes(prop: &str) -> &'static [&'static str] {
         "C05" => &["drops_by_caller", "drops_by_pool", "sweep_injections_fired", "drops_while_panicking"],
         "C10" => &["block_on"],
         "C11" => &["stream_pending", "sweep_injections_fired"],
-        "C12" => &["out_pending", "stream_pending", "depth_changes"],
+        "C12" => &["out_pending", "stream_pending", "depth_changes", "sweep_injections_fired", "pipe_backpressure"],
         "C15" => &["panics_injected", "panic_on_pool", "panic_on_caller", "calls_on_panicked"],
         "C16" => &["sweep_injections_fired", "kept_wakers"],
         "C17" => &["pool_threads_spawned"],
